@@ -55,7 +55,7 @@ func c01Script(c *vf.Case, w *sim.World, lostKeyPrefix string) {
 		var target *sim.Obj
 		if beh == sim.BCancelOther || beh == sim.BCancelRestartOther {
 			target = pickOpen(func(t *sim.Obj) bool { return t != o && t.FD != nil })
-		} else if beh == sim.BCloseOther {
+		} else if beh == sim.BCloseOther || beh == sim.BDrainOther {
 			target = pickOpen(func(t *sim.Obj) bool { return t != o })
 		}
 		forced := r.Chance(1, 3)
@@ -137,7 +137,7 @@ func c01Script(c *vf.Case, w *sim.World, lostKeyPrefix string) {
 			})
 		}
 		if victim != nil && killer != nil {
-			beh := []sim.Behaviour{sim.BCloseOther, sim.BCancelOther, sim.BCancelRestartOther}[r.Intn(3)]
+			beh := []sim.Behaviour{sim.BCloseOther, sim.BCancelOther, sim.BCancelRestartOther, sim.BDrainOther}[r.Intn(4)]
 			startKiller := func() {
 				switch killer.Kind {
 				case sim.KListener:
@@ -155,7 +155,7 @@ func c01Script(c *vf.Case, w *sim.World, lostKeyPrefix string) {
 			startVictim := func() {
 				w.StartStream(victim, 0, r.Chance(1, 4), 64, sim.BNone, nil, false)
 				w.StartStream(victim, 1, r.Chance(1, 4), []int{1, 64, 1024}[r.Intn(3)], sim.BNone, nil, true)
-				if r.Bool() {
+				if r.Bool() || beh == sim.BDrainOther {
 					w.PeerWrite(victim, 5) // the victim's read is ready in the same batch as well
 				}
 			}
